@@ -4,8 +4,15 @@
 // phase route: detect() (through the verif hook, exactly what Read/Write call) on a connection
 // returned by the adaptive listener's Accept, retried `tries` times; then the bytes the
 // selected stack would see, by driving ProtocolDetectConn.Read with the given buffer sizes.
+// phase pub: the same kind of scripts through Read / Write of the PUBLIC object Accept returned
+// (what a server application holds): every call goes through conn(), so whatever conn() keeps of
+// an earlier detection is exercised.  No hooks.
 // phase e2e: no hooks — a real TLCP / crypto/tls client handshakes and echoes through
-// pa.NewListener over a re-segmenting transport.
+// pa.NewListener over a re-segmenting transport; `slow=<k>`: the client's first record arrives in
+// two pieces around an expired read deadline of the server's first call.
+// phase close: no hooks — the first Read / Write on the public object is parked (k bytes of the
+// first record delivered, client silent) and ANOTHER goroutine calls Close / a deadline setter;
+// watchdog: a call that does not return is the observation `hang`.
 package main
 
 import (
@@ -16,6 +23,8 @@ import (
 	"net"
 	"strconv"
 	"strings"
+	"sync"
+	"sync/atomic"
 	"time"
 
 	"gitee.com/Trisia/gotlcp/pa"
@@ -239,7 +248,233 @@ func execRoute(desc string) string {
 }
 
 // ---------------------------------------------------------------------------
+// pub: Read / Write of the public object over a scripted transport
+
+const watchdog = 1500 * time.Millisecond
+
+func execPub(desc string) string {
+	shape, _ := hx.KV(desc, "cfg")
+	evS, _ := hx.KV(desc, "ev")
+	opS, _ := hx.KV(desc, "ops")
+	tc, sc := configs(shape)
+	inner := &oneListener{ch: make(chan net.Conn, 1)}
+	inner.ch <- &scriptConn{evs: parseEvs(evS)}
+	ln := pa.NewListener(inner, tc, sc)
+	c, err := ln.Accept()
+	if err != nil {
+		return "accept=" + errClass(err)
+	}
+	sw := c.(*pa.ProtocolSwitchServerConn)
+	var att []string
+	if opS != "-" && opS != "" {
+		for _, op := range strings.Split(opS, ",") {
+			done := make(chan string, 1)
+			go func() {
+				var cerr error
+				if p := hx.Guard(func() {
+					if op == "W" {
+						_, cerr = c.Write([]byte{0x2a})
+					} else {
+						_, cerr = c.Read(make([]byte, 64))
+					}
+				}); p != "" {
+					done <- "panic"
+					return
+				}
+				// a call made once a stack is installed is that stack's business
+				if pc := sw.ProtectedConn(); pc != nil {
+					done <- stackOf(pc)
+				} else if cerr == nil {
+					done <- "ok"
+				} else {
+					done <- errClass(cerr)
+				}
+			}()
+			var r string
+			select {
+			case r = <-done:
+			case <-time.After(5 * time.Second):
+				r = "hang"
+			}
+			att = append(att, r)
+			if r == "hang" {
+				break
+			}
+		}
+	}
+	return "att=" + joinOr(att)
+}
+
+// ---------------------------------------------------------------------------
+// close: a second goroutine while the first call is parked
+
+// countConn tells the driver when a Read of the transport is in progress and how many bytes
+// the transport has handed out so far.
+type countConn struct {
+	net.Conn
+	inRead atomic.Int32
+	got    atomic.Int64
+}
+
+func (c *countConn) Read(p []byte) (int, error) {
+	c.inRead.Add(1)
+	n, err := c.Conn.Read(p)
+	c.got.Add(int64(n))
+	c.inRead.Add(-1)
+	return n, err
+}
+
+func closeClass(err error) string {
+	var ne net.Error
+	switch {
+	case err == nil:
+		return "ok"
+	case errors.As(err, &ne) && ne.Timeout():
+		return "timeout"
+	}
+	return "err"
+}
+
+func execClose(desc string) string {
+	shape, _ := hx.KV(desc, "cfg")
+	major := hx.KVInt(desc, "major")
+	k := hx.KVInt(desc, "k")
+	first, _ := hx.KV(desc, "first")
+	act, _ := hx.KV(desc, "act")
+	tc, sc := configs(shape)
+	ce, se := pair.StreamPipe()
+	defer ce.Close()
+	defer se.Close()
+	cw := &countConn{Conn: se}
+	inner := &oneListener{ch: make(chan net.Conn, 1)}
+	inner.ch <- cw
+	ln := pa.NewListener(inner, tc, sc)
+	c, err := ln.Accept()
+	if err != nil {
+		return "accept=" + errClass(err)
+	}
+	if k > 0 {
+		ce.Inject(stream(byte(major), k))
+	}
+	callDone := make(chan string, 1)
+	go func() {
+		var cerr error
+		if p := hx.Guard(func() {
+			if first == "W" {
+				_, cerr = c.Write([]byte{0x2a})
+			} else {
+				_, cerr = c.Read(make([]byte, 64))
+			}
+		}); p != "" {
+			callDone <- "panic"
+			return
+		}
+		callDone <- closeClass(cerr)
+	}()
+	// wait until that call is parked in a transport read with all k bytes consumed
+	parked := false
+	for t0 := time.Now(); time.Since(t0) < 5*time.Second; {
+		if cw.inRead.Load() == 1 && cw.got.Load() == int64(k) {
+			parked = true
+			break
+		}
+		select {
+		case r := <-callDone:
+			return "early=" + r
+		default:
+		}
+		time.Sleep(50 * time.Microsecond)
+	}
+	if !parked {
+		return "parked=no"
+	}
+	past := time.Unix(1, 0)
+	actDone := make(chan struct{}, 1)
+	go func() {
+		switch act {
+		case "close":
+			c.Close()
+		case "rdl":
+			c.SetReadDeadline(past)
+		case "dl":
+			c.SetDeadline(past)
+		case "wdl+close":
+			c.SetWriteDeadline(past)
+			c.Close()
+		}
+		actDone <- struct{}{}
+	}()
+	// one watchdog for both: the action must return and the parked call must come back
+	actS, callS := "hang", "hang"
+	wd := time.After(watchdog)
+	for wait := true; wait && (actS == "hang" || callS == "hang"); {
+		var ac chan struct{}
+		var cc chan string
+		if actS == "hang" {
+			ac = actDone
+		}
+		if callS == "hang" {
+			cc = callDone
+		}
+		select {
+		case <-ac:
+			actS = "ok"
+		case callS = <-cc:
+		case <-wd:
+			wait = false
+		}
+	}
+	// release whatever is still stuck: the raw transport goes away under the adapter
+	ce.Close()
+	se.Close()
+	if actS == "hang" {
+		select {
+		case <-actDone:
+		case <-time.After(watchdog):
+		}
+	}
+	if callS == "hang" {
+		select {
+		case <-callDone:
+		case <-time.After(watchdog):
+		}
+	}
+	return fmt.Sprintf("act=%s call=%s", actS, callS)
+}
+
+// ---------------------------------------------------------------------------
 // e2e
+
+// gatedEnd is a client-side transport whose FIRST Write delivers only the first k bytes, tells
+// the driver, and holds the rest back until the gate opens: a slow / badly segmented first record.
+type gatedEnd struct {
+	*pair.StreamEnd
+	k         int
+	gate      chan struct{}
+	delivered chan struct{}
+	started   bool
+}
+
+func (g *gatedEnd) Write(b []byte) (int, error) {
+	if g.started {
+		return g.StreamEnd.Write(b)
+	}
+	g.started = true
+	k := g.k
+	if k > len(b) {
+		k = len(b)
+	}
+	if k > 0 {
+		if _, err := g.StreamEnd.Write(b[:k]); err != nil {
+			close(g.delivered)
+			return 0, err
+		}
+	}
+	close(g.delivered)
+	<-g.gate
+	n, err := g.StreamEnd.Write(b[k:])
+	return k + n, err
+}
 
 func execE2E(desc string) string {
 	client, _ := hx.KV(desc, "client")
@@ -251,25 +486,87 @@ func execE2E(desc string) string {
 	if rb < 1 {
 		rb = 1
 	}
+	slowS, slow := hx.KV(desc, "slow")
+	first, _ := hx.KV(desc, "first")
+	var pre []byte
+	if ps, ok := hx.KV(desc, "pre"); ok && ps != "-" && first == "W" {
+		pre = hx.UnHex(ps)
+	}
 	tc, sc := configs(shape)
 	ce, se := pair.StreamPipe()
 	if seg > 0 {
 		se.MaxRead = func(avail int) int { return seg }
 	}
+	var cconn net.Conn = ce
+	var ge *gatedEnd
+	if slow {
+		k, _ := strconv.Atoi(slowS)
+		ge = &gatedEnd{StreamEnd: ce, k: k, gate: make(chan struct{}), delivered: make(chan struct{})}
+		cconn = ge
+	}
+	var gateOnce sync.Once
+	openGate := func() {
+		if ge != nil {
+			gateOnce.Do(func() { close(ge.gate) })
+		}
+	}
+	defer openGate()
 	inner := &oneListener{ch: make(chan net.Conn, 1)}
 	inner.ch <- se
 	ln := pa.NewListener(inner, tc, sc)
 	served := make(chan string, 1)
+	poll := make(chan string, 1)
 	go func() {
 		c, err := ln.Accept()
 		if err != nil {
+			poll <- "none"
 			served <- "none"
 			return
 		}
 		sw := c.(*pa.ProtocolSwitchServerConn)
 		buf := make([]byte, rb)
 		total := 0
-		for total < len(msg) {
+		if slow {
+			// the k bytes are there, nothing more will come before the gate opens; the server's
+			// first call runs under a read deadline that has expired
+			<-ge.delivered
+			c.SetReadDeadline(time.Unix(1, 0))
+			pd := make(chan string, 1)
+			go func() {
+				var perr error
+				if p := hx.Guard(func() {
+					if first == "W" {
+						_, perr = c.Write(pre)
+					} else {
+						_, perr = c.Read(buf)
+					}
+				}); p != "" {
+					pd <- "panic"
+					return
+				}
+				pd <- errClass(perr)
+			}()
+			select {
+			case r := <-pd:
+				poll <- r
+			case <-time.After(5 * time.Second):
+				poll <- "hang"
+				openGate()
+				served <- "none"
+				se.Close() // the raw transport goes away under the stuck call; the client sees EOF
+				return
+			}
+			// the deadline is cleared, the rest of the record arrives, the server goes on
+			c.SetReadDeadline(time.Time{})
+			openGate()
+		}
+		okPre := true
+		if first == "W" && len(pre) > 0 {
+			if _, werr := c.Write(pre); werr != nil {
+				okPre = false
+			}
+		}
+		for okPre && total < len(msg) {
 			n, err := c.Read(buf)
 			if n > 0 {
 				if _, werr := c.Write(buf[:n]); werr != nil {
@@ -296,11 +593,11 @@ func execE2E(desc string) string {
 		var conn net.Conn
 		var herr error
 		if client == "tlcp" {
-			cc := tlcp.Client(ce, pair.TClient())
+			cc := tlcp.Client(cconn, pair.TClient())
 			herr = cc.Handshake()
 			conn = cc
 		} else {
-			cc := tls.Client(ce, &tls.Config{InsecureSkipVerify: true, Time: pki.NowFn})
+			cc := tls.Client(cconn, &tls.Config{InsecureSkipVerify: true, Time: pki.NowFn})
 			herr = cc.Handshake()
 			conn = cc
 		}
@@ -312,7 +609,7 @@ func execE2E(desc string) string {
 			done <- res{hs: true}
 			return
 		}
-		back := make([]byte, len(msg))
+		back := make([]byte, len(pre)+len(msg))
 		n, _ := io.ReadFull(conn, back)
 		done <- res{hs: true, echo: back[:n]}
 	}()
@@ -320,10 +617,20 @@ func execE2E(desc string) string {
 	select {
 	case r = <-done:
 	case <-time.After(20 * time.Second):
+		openGate()
 		ce.Close()
 		se.Close()
 		r = <-done
 		r.hs = false
+	}
+	pollS := ""
+	if slow {
+		select {
+		case p := <-poll:
+			pollS = "poll=" + p + " "
+		case <-time.After(6 * time.Second):
+			pollS = "poll=hang "
+		}
 	}
 	var sv string
 	select {
@@ -337,16 +644,21 @@ func execE2E(desc string) string {
 	if r.hs {
 		hs = "ok"
 	}
-	return fmt.Sprintf("served=%s hs=%s echo=%s", sv, hs, hx.Hex(r.echo))
+	return fmt.Sprintf("%sserved=%s hs=%s echo=%s", pollS, sv, hs, hx.Hex(r.echo))
 }
 
 func execute(desc string) string {
 	ph, _ := hx.KV(desc, "ph")
 	var out string
 	if p := hx.Guard(func() {
-		if ph == "e2e" {
+		switch ph {
+		case "e2e":
 			out = execE2E(desc)
-		} else {
+		case "pub":
+			out = execPub(desc)
+		case "close":
+			out = execClose(desc)
+		default:
 			out = execRoute(desc)
 		}
 	}); p != "" {
@@ -406,6 +718,37 @@ func stream(major byte, n int) []byte {
 		return s[:n]
 	}
 	return s
+}
+
+// randScript: chunks of 0..24 bytes (empty chunks included) biased towards the bytes that
+// matter (0x01, 0x03, 0x16), read time-outs anywhere
+func randScript(rng *hx.Rand) []ev {
+	var evs []ev
+	ne := rng.Intn(9)
+	first := true
+	for j := 0; j < ne; j++ {
+		if rng.Chance(12) {
+			evs = append(evs, ev{timeout: true})
+			continue
+		}
+		d := rng.Bytes(rng.Intn(5))
+		if rng.Chance(5) {
+			d = rng.Bytes(5 + rng.Intn(20))
+		}
+		for k := range d {
+			if rng.Chance(60) {
+				d[k] = hx.Pick(rng, []byte{1, 3, 0x16})
+			}
+		}
+		if first && len(d) > 1 && rng.Chance(50) {
+			d[1] = hx.Pick(rng, []byte{1, 3})
+		}
+		if len(d) > 0 {
+			first = false
+		}
+		evs = append(evs, ev{data: d})
+	}
+	return evs
 }
 
 var shapes = []string{"dual", "tlcp", "tls"}
@@ -487,31 +830,7 @@ func main() {
 		}
 		n *= o.Scale
 		for i := 0; i < n; i++ {
-			var evs []ev
-			ne := rng.Intn(9)
-			first := true
-			for j := 0; j < ne; j++ {
-				if rng.Chance(12) {
-					evs = append(evs, ev{timeout: true})
-					continue
-				}
-				d := rng.Bytes(rng.Intn(5))
-				if rng.Chance(5) {
-					d = rng.Bytes(5 + rng.Intn(20))
-				}
-				for k := range d {
-					if rng.Chance(60) {
-						d[k] = hx.Pick(rng, []byte{1, 3, 0x16})
-					}
-				}
-				if first && len(d) > 1 && rng.Chance(50) {
-					d[1] = hx.Pick(rng, []byte{1, 3})
-				}
-				if len(d) > 0 {
-					first = false
-				}
-				evs = append(evs, ev{data: d})
-			}
+			evs := randScript(rng)
 			var bs []string
 			for j := rng.Intn(12); j > 0; j-- {
 				if rng.Chance(10) {
@@ -524,7 +843,126 @@ func main() {
 		}
 	}
 
+	if o.Phase == "" || o.Phase == "pub" {
+		pub := func(sh string, evs []ev, ops string) {
+			emit(fmt.Sprintf("ph=pub cfg=%s ev=%s ops=%s", sh, showEvs(evs), ops))
+		}
+		split := func(s []byte, cuts ...int) []ev { // chunks with a read time-out at every cut
+			var out []ev
+			off := 0
+			for _, c := range cuts {
+				if c > off {
+					out = append(out, ev{data: s[off:c]})
+				}
+				out = append(out, ev{timeout: true})
+				off = c
+			}
+			return append(out, ev{data: s[off:]})
+		}
+		// 1. the first call's read deadline expires after k = 0..4 header bytes, then the rest
+		//    arrives: the next call must route (Read-first and Write-first, every shape)
+		for k := 0; k <= 4; k++ {
+			for _, mj := range []byte{1, 3, 2} {
+				for _, sh := range shapes {
+					for _, ops := range []string{"R,R,R", "W,W,W", "R,W,R", "W,R,W"} {
+						pub(sh, split(stream(mj, 11), k), ops)
+					}
+				}
+			}
+		}
+		// 2. two and three expired deadlines inside the header
+		for a := 0; a <= 4; a++ {
+			for b := a; b <= 5; b++ {
+				for _, mj := range []byte{1, 3} {
+					pub("dual", split(stream(mj, 12), a, b), hx.Pick(rng, []string{"R,R,R,R", "W,R,W,R", "R,W,W,R"}))
+					if !thorough && (a+b)%2 == 1 {
+						continue
+					}
+					pub(hx.Pick(rng, shapes), split(stream(mj, 12), a, b, 5), "R,W,R,W,R")
+				}
+			}
+		}
+		// 3. one read time-out at every position of every segmentation of the first 6 bytes
+		for _, parts := range compositions(6) {
+			for _, mj := range []byte{1, 3, 2} {
+				evs := chunk(stream(mj, 10), parts)
+				for pos := 0; pos <= len(evs); pos++ {
+					if !thorough && (pos+len(parts)+int(mj))%2 == 1 {
+						continue
+					}
+					w := append(append(append([]ev{}, evs[:pos]...), ev{timeout: true}), evs[pos:]...)
+					pub(hx.Pick(rng, shapes), w, hx.Pick(rng, []string{"R,R,R", "W,W,R", "R,W"}))
+				}
+			}
+		}
+		// 4. no time-out at all: every segmentation of the first 5 bytes, the verdict is repeated at every call
+		for _, parts := range compositions(5) {
+			for _, mj := range []byte{1, 3, 0, 0x16} {
+				pub(hx.Pick(rng, shapes), chunk(stream(mj, 9), parts), hx.Pick(rng, []string{"R", "W", "R,W,R", "W,W"}))
+			}
+		}
+		// 5. client goes away after 0..4 bytes (with and without an expired deadline before that)
+		for n := 0; n <= 4; n++ {
+			for _, parts := range compositions(n) {
+				for _, mj := range []byte{1, 3} {
+					pub(hx.Pick(rng, shapes), chunk(stream(mj, n), parts), "R,W,R")
+					pub(hx.Pick(rng, shapes), append([]ev{{timeout: true}}, chunk(stream(mj, n), parts)...), "W,R,R")
+				}
+			}
+		}
+		// 6. random scripts, random call sequences
+		n := 1500
+		if thorough {
+			n = 60000
+		}
+		n *= o.Scale
+		for i := 0; i < n; i++ {
+			evs := randScript(rng)
+			var ops []string
+			for j := rng.Intn(6); j > 0; j-- {
+				ops = append(ops, hx.Pick(rng, []string{"R", "R", "W"}))
+			}
+			pub(hx.Pick(rng, shapes), evs, joinOr(ops))
+		}
+	}
+
+	if o.Phase == "" || o.Phase == "close" {
+		for k := 0; k <= 7; k++ {
+			for _, first := range []string{"R", "W"} {
+				for _, act := range []string{"close", "rdl", "dl", "wdl+close"} {
+					for ci, cm := range [][2]string{{"dual", "1"}, {"dual", "3"}, {"dual", "2"}, {"tlcp", "1"}, {"tls", "3"}} {
+						// beyond the header only a configured stack can be parked
+						if cm[1] == "2" && k >= 5 {
+							continue
+						}
+						if !thorough && (ci >= 3 || (act != "close" && (ci+k)%2 == 1)) {
+							continue
+						}
+						emit(fmt.Sprintf("ph=close cfg=%s major=%s k=%d first=%s act=%s", cm[0], cm[1], k, first, act))
+					}
+				}
+			}
+		}
+	}
+
 	if o.Phase == "" || o.Phase == "e2e" {
+		// the client's first record in two pieces (k = 0..4 bytes first) around an expired read
+		// deadline of the server's first call, Read-first and Write-first
+		for _, cl := range []string{"tlcp", "tls"} {
+			for _, sh := range shapes {
+				for k := 0; k <= 4; k++ {
+					for _, first := range []string{"R", "W"} {
+						msg := rng.Bytes(1 + rng.Intn(200))
+						pre := "-"
+						if first == "W" {
+							pre = hx.Hex(rng.Bytes(1 + rng.Intn(9)))
+						}
+						emit(fmt.Sprintf("ph=e2e client=%s cfg=%s seg=%d rb=%d msg=%s slow=%d first=%s pre=%s", cl, sh,
+							hx.Pick(rng, []int{0, 1, 3}), hx.Pick(rng, []int{1, 5, 64}), hx.Hex(msg), k, first, pre))
+					}
+				}
+			}
+		}
 		segs := []int{0, 1, 2, 3, 5, 7}
 		rbs := []int{1, 4, 5, 6, 64, 4096}
 		for _, cl := range []string{"tlcp", "tls"} {
